@@ -100,4 +100,24 @@ theorem Sim.nstf {m : Mat} {l : List Step} {fin : View} (hk : HOk m) (hr : m.h =
   · intro hi; simp [handle, hr, Mat.reset] at hi
   · simpa [handle, hr, Mat.reset] using h
 
+/-! ### the unfiltered subscriber -/
+
+theorem entryOk_all (t : Topic) (id : Id) (v : Val) : Authz.all.entryOk t id v = true := by
+  cases t <;> rfl
+
+theorem fview_all (t : Topic) (v : View) : fview .all t v = v := by
+  unfold fview
+  simp [entryOk_all]
+
+theorem visible_all (t : Topic) (st : Step) : visible .all t st = some st := by
+  cases st with
+  | nstf => rfl
+  | eos i post => simp [visible, fview_all]
+  | item it =>
+    have : it.evs.filter Authz.all.allowed = it.evs := by
+      apply List.filter_eq_self.mpr
+      intro e _
+      exact entryOk_all _ _ _
+    simp [visible, this, fview_all]
+
 end CV.Stream
